@@ -217,6 +217,14 @@ func (q reachQ) run() ssa.Instruction {
 				} else {
 					start.facts = start.facts.with(c.X, 2)
 				}
+			} else if nil == c.Y && nil != c.X {
+				/* A boolean branched on. */
+				if _, xIsC := c.X.(*ssa.Const); !xIsC {
+					if b, isB := c.X.Type().Underlying().(*types.Basic); isB && 0 != b.Info()&types.IsBoolean {
+						onTrue := via.Succs[0] == q.From.B
+						start.facts = start.facts.withConst(c.X, fmt.Sprintf("%d:%v", constant.Bool, c.Eq == onTrue))
+					}
+				}
 			}
 		}
 		start.facts = enterBlock(via, q.From.B, start.facts)
@@ -302,6 +310,25 @@ func (q reachQ) run() ssa.Instruction {
 							eq = 0
 						}
 						outs = append(outs, item{it.b.Succs[eq], 0, it.b, facts.withConst(c.X, constKey(yc))}, item{it.b.Succs[1-eq], 0, it.b, facts})
+						decided = true
+					}
+				}
+			}
+		}
+		if !decided && nil != ifi && 2 == len(it.b.Succs) && it.b.Succs[0] != it.b.Succs[1] {
+			/* A boolean value branched on: on each edge it is what the
+			edge says, and a later test of the same value (else if ok)
+			goes the same way. */
+			if c := decodeCond(ifi.Cond); nil == c.Y && nil != c.X {
+				if _, xIsC := c.X.(*ssa.Const); !xIsC {
+					if b, isB := c.X.Type().Underlying().(*types.Basic); isB && 0 != b.Info()&types.IsBoolean {
+						tk := fmt.Sprintf("%d:true", constant.Bool)
+						fk := fmt.Sprintf("%d:false", constant.Bool)
+						tSucc := 1
+						if c.Eq {
+							tSucc = 0
+						}
+						outs = append(outs, item{it.b.Succs[tSucc], 0, it.b, facts.withConst(c.X, tk)}, item{it.b.Succs[1-tSucc], 0, it.b, facts.withConst(c.X, fk)})
 						decided = true
 					}
 				}
@@ -548,4 +575,23 @@ func boolTestsOf(fn *ssa.Function, v ssa.Value) []boolTest {
 // successor number succ?
 func canReachEdge(ifi *ssa.If, succ int, target ssa.Instruction) bool {
 	return nil != reachQ{From: edgeLoc(ifi.Block(), succ), Target: func(i ssa.Instruction) bool { return i == target }}.run()
+}
+
+// retIntOnPath: the integer v is known to be where the path stands: a
+// constant, or a value (the merged exit status of a folded helper, say) which
+// the path's way in made one.
+func retIntOnPath(v ssa.Value, facts nilFacts) (int64, bool) {
+	if k, ok := constInt(v); ok {
+		return k, true
+	}
+	key := pathConstOf(v, facts)
+	pre := fmt.Sprintf("%d:", constant.Int)
+	if !strings.HasPrefix(key, pre) {
+		return 0, false
+	}
+	var k int64
+	if _, err := fmt.Sscanf(strings.TrimPrefix(key, pre), "%d", &k); nil != err {
+		return 0, false
+	}
+	return k, true
 }
